@@ -236,10 +236,15 @@ def _reserved_rule(repo, rep):
         for item, conds in A.flatten(r.trace):
             if isinstance(item, A.Raise) and "TranslationError" in A.show(
                     item.exc):
+                per_name = any(k == "loop" and "node.names" in t
+                               for k, t in conds)
                 for k, t in conds:
                     if k == "if" and ("COMPILER_INTERNALS" in t or
                                       "startswith" in t):
-                        tests.add(_norm_test(t))
+                        # a guard outside the loop over the names covers
+                        # one name only
+                        tests.add(_norm_test(t) if per_name else
+                                  _norm_test(t) + " (not for every name)")
         sets[name] = (f, tests)
     union = set()
     for f, t in sets.values():
@@ -248,6 +253,8 @@ def _reserved_rule(repo, rep):
               "reserved names (compiler internals, double underscore) are "
               "rejected at compile time", construct="reserved-present",
               detail=str(sorted(union)))
+    union = {t for t in union if not t.endswith("(not for every name)")} | \
+        {"in-reserved-set", "double-underscore"}
     for name, (f, tests) in sets.items():
         for t in sorted(union):
             rep.check(t in tests, "R05.4", f.qualname,
@@ -263,7 +270,8 @@ def _reserved_rule(repo, rep):
 
 
 def _norm_test(t):
-    t = t.replace("name in COMPILER_INTERNALS_OR_DISALLOWED", "in-reserved-set")
+    if " in COMPILER_INTERNALS_OR_DISALLOWED" in t and " not in " not in t:
+        return "in-reserved-set"
     if "startswith('__')" in t or 'startswith("__")' in t:
         return "double-underscore"
     return t
